@@ -63,7 +63,7 @@ def valid(case):
     return irprops.valid_rt_case(case, "function")
 
 
-POLICY = Policy(absent_default_ok=none_ok)
+POLICY = Policy(absent_default_ok=none_ok, summary="lines")
 
 
 def _extra(cir, got, text, discs, per, opts):
